@@ -190,6 +190,27 @@ func driveLongLived(args []string) error {
 		vals := []interface{}{json.Number("5"), json.Number("50"), "abc", json.Number("4"), "ab", json.Number("2.5")}
 		handles = append(handles, mkHandle("schema", []byte(st), vals))
 	}
+	// enumerations of strings at the validator's own level (root, composition member, parameter, header): whatever was checked first
+	for _, st := range []string{`{"type":"string","enum":["a","ab","abc","xa"]}`, `{"allOf":[{"enum":["a","ab","abc"]},{"type":"string"}]}`, `{"anyOf":[{"enum":["xa","a","é"]},{"type":"integer"}]}`} {
+		vals := []interface{}{"a", "ab", "abc", "xa", "zz", nil}
+		handles = append(handles, mkHandle("schema", []byte(st), vals))
+	}
+	for _, dt := range []string{`{"name":"p","in":"query","type":"string","enum":["a","ab","abc"]}`, `{"type":"string","enum":["xa","a","ab"]}`} {
+		kind := "param"
+		if !strings.Contains(dt, `"name"`) {
+			kind = "header"
+		}
+		handles = append(handles, mkHandle(kind, []byte(dt), []interface{}{"a", "ab", "abc", "xa", "zz", "é"}))
+	}
+	// numeric constraints that are not representable in the declared type / format: reported on every call, not just the first
+	for _, dt := range []string{`{"name":"limit","in":"query","type":"integer","format":"int32","maximum":3000000000}`, `{"name":"f","in":"query","type":"number","format":"float","minimum":-1e300}`,
+		`{"type":"integer","format":"int32","minimum":-3000000000,"multipleOf":2}`, `{"name":"u","in":"query","type":"integer","format":"uint32","maximum":5000000000}`} {
+		kind := "param"
+		if !strings.Contains(dt, `"name"`) {
+			kind = "header"
+		}
+		handles = append(handles, mkHandle(kind, []byte(dt), []interface{}{int32(5), float64(2), int64(8), float32(1.5), uint32(7), "x"}))
+	}
 	// keywords whose members are visited in map order: every repetition must give the same answer
 	for _, st := range []string{
 		`{"dependencies":{"marker":[],"a":["c"],"other":[]}}`,
